@@ -432,7 +432,8 @@ pub fn op_withdraw(acc: &mut Acc, wd: &mut IncWorld, ui: usize) {
 }
 
 /// deposit through the frontend helper (cw20-LP variant only)
-/// fault: 0 exact funds, 1 more of the pool's native denom attached than declared, 2 an extra (unrelated) denom attached
+/// fault: 0 exact funds, 1 more of the pool's native denom attached than declared, 2 an extra (unrelated) denom attached,
+/// 3 a cw20 approval towards the helper that is larger than the deposited amount (left over from an earlier attempt)
 pub fn op_helper_deposit(acc: &mut Acc, wd: &mut IncWorld, ui: usize, amount: u128, dur: u64, fault: u8) {
     let Some(pair) = &wd.pair else { return };
     let usr = wd.users[ui].clone();
@@ -445,7 +446,7 @@ pub fn op_helper_deposit(acc: &mut Acc, wd: &mut IncWorld, ui: usize, amount: u1
     wd.log(what.clone());
     let helper = wd.helper.clone();
     if let AssetRef::Cw20(t) = &a1 {
-        set_allowance(&mut wd.app, t, &usr, &helper, d1);
+        set_allowance(&mut wd.app, t, &usr, &helper, if fault == 3 { d1 + 1 + d1 / 3 } else { d1 });
     }
     // standing approval of the user's LP tokens towards the incentive contract (granted once by wallets)
     if d0 % 2 == 0 {
@@ -855,7 +856,7 @@ pub fn run_history(acc: &mut Acc, r: &mut Rng, steps: u64, variant: u64) {
         } else if op < 52 {
             if wd.pair.is_some() {
                 let dur = *r.pick(&durs);
-                let fault = if r.chance(1, 3) { r.range(1, 2) as u8 } else { 0 };
+                let fault = if r.chance(1, 3) { r.range(1, 3) as u8 } else { 0 };
                 // one helper deposit in eight names an unbonding duration the incentive contract refuses: the liquidity
                 // has been provided by then, so the whole transaction has to revert (nothing may stay with the helper)
                 let dur = if r.chance(1, 8) { acc.count("helper.deposit.with-refused-duration"); *r.pick(&[MIN_DUR - 1, MAX_DUR + 1, 0]) } else { dur.clamp(MIN_DUR, MAX_DUR) };
